@@ -11,7 +11,7 @@ SHARD_TIMEOUT = {"quick": 240, "thorough": 1500}
 
 
 def plan(tier, seed):
-    return sse.scheme_shards(tier, per_scheme_quick=2, per_scheme_thorough=4, budget_quick=10, budget_thorough=240)
+    return sse.scheme_shards(tier, per_scheme_quick=2, per_scheme_thorough=3, budget_quick=10, budget_thorough=200)
 
 
 def run_shard(spec, acc, ctx):
